@@ -115,6 +115,8 @@ def run_case(case, own, probe=False):
         clause = EXC_CLAUSE.get(own)
         if own == 'C06' and not isinstance(e, AssertionError):
             clause = None
+        if own == 'C13' and isinstance(e, AssertionError) and 'Invalid PartHandler state' in str(e):
+            clause = 'C13.b'   # an event of a shut down machine was executed
         if own == 'C15' and case.get('trace'):
             clause = 'C15.e'   # an enabled trace must list the executed events, not crash
         if clause:
